@@ -381,6 +381,40 @@ def enumerate_edits(env, rng):
     yield from walk(doc, ["doc"], root_node, root_doc)
 
 
+KEYLIKE = re.compile(r"^[a-z][a-z0-9]*([-+][a-z0-9]+)*$")
+_LITS = []
+
+
+def go_literals():
+    """key-like string literals of the non-test Go source of the repository under test"""
+    if not _LITS:
+        import glob as _g
+        found = set()
+        for f in _g.glob(os.path.join(REPO, "**", "*.go"), recursive=True):
+            if f.endswith("_test.go") or "/examples/" in f:
+                continue
+            try:
+                src = open(f, encoding="utf-8", errors="replace").read()
+            except OSError:
+                continue
+            for m in re.finditer(r'"([a-z][a-z0-9]*(?:[-+][a-z0-9]+)*)"', src):
+                if 3 <= len(m.group(1)) <= 40:
+                    found.add(m.group(1))
+        _LITS.extend(sorted(found))
+    return _LITS
+
+
+def string_leaves(v, path):
+    if isinstance(v, dict):
+        for k, x in v.items():
+            yield from string_leaves(x, path + [k])
+    elif isinstance(v, list):
+        for i, x in enumerate(v):
+            yield from string_leaves(x, path + [i])
+    elif isinstance(v, str):
+        yield path, v
+
+
 def apply_edit(env, op, path, payload):
     """path-copying application of one edit; env itself is not touched"""
     def go(v, i):
@@ -659,6 +693,25 @@ def run(c):
         chosen += rest[:budget - len(chosen)]
         all_edits = chosen
     c.cov["exhaustive"] = len(all_edits) == c.cov["edits_enumerated"]
+    # literal edits: every key-like string literal of the repository's Go source (legacy names, aliases, keys of other
+    # members) as the new value of every key-valued leaf position - a value the parser quietly maps back to the old
+    # one would go unnoticed by the digest
+    pool = go_literals()
+    seen_gp = set()
+    nlit = 0
+    for si, (name, text, env, o) in enumerate(good):
+        for path, v in string_leaves(env["doc"], ["doc"]):
+            if not KEYLIKE.match(v):
+                continue
+            gp = tuple("*" if isinstance(x, int) else x for x in path)
+            if gp in seen_gp and quick:
+                continue
+            seen_gp.add(gp)
+            for lit in pool:
+                if lit != v:
+                    all_edits.append((si, "leaf-literal", "set", path, lit, "derived-regime" if path == ["doc", "$regime"] else None))
+                    nlit += 1
+    c.cov["literal_edits"] = {"pool": len(pool), "positions": len(seen_gp), "edits": nlit}
     per_source = {}
     for e in all_edits:
         per_source.setdefault(e[0], []).append(e)
